@@ -1,6 +1,6 @@
 #!/usr/bin/env python3
 """Generic flow of one property check (DESIGN.md section 3)."""
-import hashlib, json, os, sys, time, traceback
+import hashlib, json, os, shutil, sys, time, traceback
 from driver import *
 
 
@@ -70,11 +70,15 @@ def trace_hash(lines):
 
 
 def run_cases(prop, cases, tag):
-    work = os.path.join(WORK, prop.id)
+    # one scratch directory per process: concurrent checks of the same property must not collide
+    work = os.path.join(WORK, prop.id, "p%d" % os.getpid())
     scripts = [c.script for c in cases]
-    impl = run_impl_shards(scripts, work, tag)
-    mscripts = [prop.model_script(c, impl.get(c.sid, [])) for c in cases]
-    model = run_model_shards(mscripts, work, tag)
+    try:
+        impl = run_impl_shards(scripts, work, tag)
+        mscripts = [prop.model_script(c, impl.get(c.sid, [])) for c in cases]
+        model = run_model_shards(mscripts, work, tag)
+    finally:
+        shutil.rmtree(work, ignore_errors=True)
     return impl, model
 
 
